@@ -117,7 +117,64 @@ fn judge<'a, T: DiffableStr + ?Sized + 'a>(d: &'a TextDiff<'a, 'a, 'a, T>, opt: 
     Ok(())
 }
 
+/// An inline expansion of OTHER texts held in the very same String buffers (refilled in place
+/// afterwards: same address, same length, same line count) must not influence the judged one.
+fn reused_buffers(c: &TextCase) -> Result<(), String> {
+    let (o, n) = match (c.old.as_str(), c.new.as_str()) {
+        (Some(o), Some(n)) => (o, n),
+        _ => return Ok(()),
+    };
+    // other texts of the same length and line count: the words of every line in reverse order
+    let other = |s: &str| -> String {
+        s.split_inclusive('\n')
+            .map(|l| {
+                let (body, term) = match l.strip_suffix('\n') {
+                    Some(b) => (b, "\n"),
+                    None => (l, ""),
+                };
+                let mut ws: Vec<&str> = body.split_inclusive(' ').collect();
+                ws.reverse();
+                format!("{}{}", ws.concat(), term)
+            })
+            .collect()
+    };
+    let (vo, vn) = (other(o), other(n));
+    if vo.len() != o.len() || vn.len() != n.len() {
+        return Ok(());
+    }
+    let cfg = config(c.alg);
+    let expand = |a: &str, b: &str| -> Vec<(ChangeTag, Option<usize>, Option<usize>, Vec<(bool, String)>)> {
+        let d = cfg.diff_lines(a, b);
+        d.ops()
+            .iter()
+            .flat_map(|op| d.iter_inline_changes_deadline(op, None).map(|ic| (ic.tag(), ic.old_index(), ic.new_index(), ic.values().iter().map(|(e, s)| (*e, s.to_string())).collect())).collect::<Vec<_>>())
+            .collect()
+    };
+    let fresh = expand(o, n);
+    let mut bo = String::with_capacity(o.len().max(1));
+    let mut bn = String::with_capacity(n.len().max(1));
+    bo.push_str(&vo);
+    bn.push_str(&vn);
+    let _ = expand(&bo, &bn);
+    bo.clear();
+    bo.push_str(o);
+    bn.clear();
+    bn.push_str(n);
+    let again = expand(&bo, &bn);
+    if again != fresh {
+        return Err(format!("inline expansion over String buffers that held other texts of the same shape before (refilled in place) gives {:?}, over fresh strings {:?}", again, fresh));
+    }
+    Ok(())
+}
+
 pub fn check_case(c: &TextCase, obs: &mut Obs) -> Verdict {
+    if c.opt % 8 == 0 && c.old.0.len() + c.new.0.len() <= 400 {
+        match guard(|| reused_buffers(c)) {
+            Ok(Ok(())) => {}
+            Ok(Err(m)) => return Verdict::Fail(format!("{} lines: {}", alg_name(c.alg), m)),
+            Err(p) => return Verdict::Fail(format!("inline changes over reused buffers: {}", p)),
+        }
+    }
     let cfg = config(c.alg);
     let opt = c.opt % 8;
     obs.class(["inline deadline: none", "inline deadline: expired at probe 0", "inline deadline: real clock, past", "iter_inline_changes (default 500 ms)", "inline deadline: expires at probe 0..3", "inline deadline: expires at probe 0..3", "inline deadline: expires at probe 0..3", "inline deadline: expires at probe 0..3"][opt as usize]);
